@@ -24,11 +24,11 @@ SPEC = dict(
                 "the read-fonts core reader: FontData::{read_at, read_be_at, read_ref_at, read_array, slice, split_off, take_up_to}, "
                 "every Cursor operation incl. the IFT varint, offset resolution, TableDirectory/FontRef::new/table_data (with std's "
                 "binary_search_by), TTCHeader read, and the hand-written helpers postscript Index1/Index2 (read, get_offset, get), "
-                "Loca::get_raw, VarLenArray get/iter, ComputedArray new/get/iter. Proved: no modelled operation reaches a panic site "
+                "Loca::get_raw, VarLenArray get/iter, ComputedArray new/get/iter; round 2 (coq/C01/ModelH.v, PropsH.v): glyf SimpleGlyph::read_points_fast and points() (resolve_coords_len + PointIter), variations PackedPointNumbers (count/total_len/split_off_front/iter) and PackedDeltas (count_all_deltas/iter), cmap format 12 iteration with and without limits — each total (no slice index, unchecked integer op or unwrap can fire) with a step bound (flag loop <= flag bytes; PointIter <= 256*len+1 calls; packed points <= count or 65536; packed deltas <= count <= 64*(len+1); cmap12 group skipping <= groups+1 rounds, each limited group <= glyph_count code points). Proved: no modelled operation reaches a panic site "
                 "(each unwrap / unchecked + / cast_slice is an explicit Panic outcome shown unreachable); read_at / read_array / "
                 "resolve specs; cursor position monotone, finish Ok iff position <= len, saturation cannot fake success; table_data "
                 "returns exactly file[offset, offset+length) of a record with the tag (any directory), complete on sorted directories; "
-                "iteration step bounds (<= len+1 calls). The model is tied to the code on every run by ~8.7k boundary-rich cases "
+                "iteration step bounds (<= len+1 calls). The model is tied to the code on every run by ~11k boundary-rich cases (ops 1-22) "
                 "(vm_compute vs the real public API). Everything else in read-fonts (generated tables through "
                 "traversal::SomeTable::get_field, cmap/glyf/gvar/CFF/COLR/bitmap/... helpers) is covered by an implementation-only "
                 "search: every font-test-data font x ~250k deterministic structure-aware mutations traversed under catch_unwind with a "
@@ -46,10 +46,14 @@ SPEC = dict(
               "read-fonts/src/offset.rs: Offset::non_null, ResolveOffset::resolve, ResolveNullableOffset::resolve",
               "read-fonts/generated/font.rs: TableDirectory::read + getters, TTCHeader::read + getters; read-fonts/src/lib.rs: FontRef::{new, with_table_directory, table_data}, CollectionRef::{new, get}",
               "core::slice::binary_search_by (rustc 1.95) as used by table_data",
+              "read-fonts/src/tables/glyf.rs: SimpleGlyph::{num_points, read_points_fast, points/points_impl}, PointIter::{next, advance_flags, advance_points}, resolve_coords_len",
+              "read-fonts/src/tables/variations.rs: PackedPointNumbers::{count, count_and_count_bytes, total_len, split_off_front, iter}, PackedPointNumbersIter/PointRunIter::next, read_control_byte, PackedDeltas::{consume_all, iter}, count_all_deltas, DeltaRunIter::next, DeltaRunType::new",
+              "read-fonts/src/tables/cmap.rs: Cmap12::{group, lookup_glyph_id, iter, iter_with_limits}, Cmap12Iter::next; generated Cmap12::read + groups()",
               "read-fonts/generated/generated_postscript.rs Index1/Index2::read + getters; src/tables/postscript/index.rs read_offset, get_offset, get",
               "read-fonts/src/tables/loca.rs Loca::{read, len, get_raw}; src/array.rs VarLenArray::{get, iter}, ComputedArray::{new, get, iter}; read.rs VarSize::read_len_at; post.rs PString::read; avar.rs SegmentMaps::{read, read_len_at}; gvar.rs U16Or32"],
     not_covered=["generated table layouts (read + *_byte_range + getters of ~250 tables): part 2, coq/C01/Layout*.v (other builder); here only exercised by the traversal search",
-                 "all other hand-written table code (cmap 4/12/14, glyf points/components, gvar/cvar tuples, HVAR/VVAR/MVAR deltas, CFF charset/DICT, COLR, CBLC/EBLC/sbix/SVG, GDEF class/coverage, VARC, name/post strings): implementation-only search, no theorem in C01 (C08-C11, C14, C16 prove parts)",
+                 "all other hand-written table code (cmap 4/14, glyf composite components, gvar/cvar tuple headers and tuple scalars, HVAR/VVAR/MVAR deltas, CFF charset/DICT, COLR, CBLC/EBLC/sbix/SVG, GDEF class/coverage, VARC, name/post strings): implementation-only search, no theorem in C01 (C08-C11, C14, C16 prove parts)",
+                 "cmap12 iteration: totality and per-group limit are proved; the total-yield bound (<= groups * glyph_count with limits) follows from them but is not mechanised. Without limits an adversarial table can make iter() yield up to groups * 2^32 pairs, and with limits groups * glyph_count (a clamped-empty group lets the next group restart from a smaller end): both are proportional to the input, callers should use iter_with_limits",
                  "CollectionRef::get totality is tested (op 11) but only TTCHeader::read totality is proved",
                  "read_u32_var: modelled and proved total/monotone, not tied (no public entry point)",
                  "stack overflow and wall-clock termination: observed by the watchdog only; recursion depth is not modelled",
